@@ -513,7 +513,7 @@ Proof.
   { destruct (le_lt_dec (next s) i) as [Hle|Hlt]; [|exact Hlt]. elim Hni. apply (c_idle _ _ _ _ C). exact Hle. }
   constructor; cbn.
   - apply core_nochange with (Q := queue s) (n := next s); auto.
-    + rewrite Hh, <- Ho. apply (c_held _ _ _ _ C).
+    + rewrite Hh, Ho. apply (c_held _ _ _ _ C).
     + apply (c_nodup _ _ _ _ C).
     + apply (queue_same _ _ _ _ _ _ C Hq).
   - intros j Hj. pose proof (i_prog _ I j Hj) as Hp. unfold upd.
@@ -578,7 +578,6 @@ Proof.
       assert (r_held (rq s i) = false) as Hh by (rewrite (c_held _ _ _ _ C), Es; reflexivity).
       constructor; cbn; [| |reflexivity].
       * apply core_nochange with (Q := queue s) (n := next s); auto.
-        -- cbn. rewrite Hh. discriminate.
         -- intros _. cbn. apply (c_ctx _ _ _ _ C). now rewrite Es.
         -- apply remove_first_NoDup. apply (c_nodup _ _ _ _ C).
         -- intros j. rewrite (remove_first_In i _ (c_nodup _ _ _ _ C)). unfold upd.
@@ -603,3 +602,259 @@ Qed.
 
 Lemma inv_reachable acts s : run true init acts = Some s -> Inv s.
 Proof. apply inv_run. apply inv_init. Qed.
+
+(* ---- recheck: one FIFO pass ---------------------------------------------------------------------------- *)
+Lemma upd_grant_sets f i j :
+  r_rd (upd f i (grant (f i)) j) = r_rd (f j) /\ r_wr (upd f i (grant (f i)) j) = r_wr (f j).
+Proof. unfold upd. destruct (Nat.eqb_spec j i) as [->|Hne]; [now rewrite grant_rd, grant_wr | auto]. Qed.
+
+Lemma recheck_sets q : forall T f T' f' rem gr, recheck T f q = (T', f', rem, gr) ->
+  forall j, r_rd (f' j) = r_rd (f j) /\ r_wr (f' j) = r_wr (f j).
+Proof.
+  induction q as [|i q IH]; intros T f T' f' rem gr H j; cbn [recheck] in H.
+  - inversion H; subst. auto.
+  - destruct (compat T (r_rd (f i)) (r_wr (f i))).
+    + destruct (recheck (take T (r_rd (f i)) (r_wr (f i))) (upd f i (grant (f i))) q)
+        as [[[T2 f2] rem2] gr2] eqn:E. inversion H; subst.
+      destruct (IH _ _ _ _ _ _ E j) as [A B]. destruct (upd_grant_sets f i j) as [A' B']. split; congruence.
+    + destruct (recheck T f q) as [[[T2 f2] rem2] gr2] eqn:E. inversion H; subst. apply (IH _ _ _ _ _ _ E).
+Qed.
+
+Lemma recheck_gr_sub q : forall T f T' f' rem gr, recheck T f q = (T', f', rem, gr) ->
+  forall g, In g gr -> In g q.
+Proof.
+  induction q as [|i q IH]; intros T f T' f' rem gr H g Hg; cbn [recheck] in H.
+  - inversion H; subst. exact Hg.
+  - destruct (compat T (r_rd (f i)) (r_wr (f i))).
+    + destruct (recheck (take T (r_rd (f i)) (r_wr (f i))) (upd f i (grant (f i))) q)
+        as [[[T2 f2] rem2] gr2] eqn:E. inversion H; subst.
+      destruct Hg as [->|Hg]; [now left | right; apply (IH _ _ _ _ _ _ E g Hg)].
+    + destruct (recheck T f q) as [[[T2 f2] rem2] gr2] eqn:E. inversion H; subst.
+      right. apply (IH _ _ _ _ _ _ E g Hg).
+Qed.
+
+Lemma before_cons q x g w : before q g w -> before (x :: q) g w.
+Proof. intros [l1 [l2 [l3 E]]]. exists (x :: l1), l2, l3. now rewrite E. Qed.
+
+(* a waiter passed over by the pass was incompatible with the table the pass started from, or conflicts with
+   a waiter that stood BEFORE it in the queue and was granted in this pass *)
+Lemma recheck_fifo q : forall T f T' f' rem gr, recheck T f q = (T', f', rem, gr) ->
+  forall w, In w q ->
+    In w gr \/ compat T (r_rd (f w)) (r_wr (f w)) = false \/
+    exists g, before q g w /\ In g gr /\ conflicts (f g) (f w).
+Proof.
+  induction q as [|i q IH]; intros T f T' f' rem gr H w Hw; cbn [recheck] in H; [destruct Hw|].
+  destruct (compat T (r_rd (f i)) (r_wr (f i))) eqn:Ec.
+  - destruct (recheck (take T (r_rd (f i)) (r_wr (f i))) (upd f i (grant (f i))) q)
+      as [[[T2 f2] rem2] gr2] eqn:E. inversion H; subst.
+    destruct (Nat.eq_dec w i) as [->|Hne]; [left; now left|].
+    destruct Hw as [Hw|Hw]; [congruence|].
+    destruct (IH _ _ _ _ _ _ E w Hw) as [Ha|[Hb|[g [Hg1 [Hg2 Hg3]]]]].
+    + left. now right.
+    + rewrite upd_other in Hb by exact Hne.
+      destruct (compat T (r_rd (f w)) (r_wr (f w))) eqn:Ew; [|right; now left].
+      right. right. exists i. split; [|split; [now left|]].
+      * destruct (in_split _ _ Hw) as [l2 [l3 Eq]]. exists [], l2, l3. now rewrite Eq.
+      * apply (compat_take_conflict _ _ _ _ _ Ew Hb).
+    + right. right. exists g. split; [now apply before_cons|split; [now right|]].
+      unfold conflicts in *. destruct (upd_grant_sets f i g) as [A B]. destruct (upd_grant_sets f i w) as [A' B'].
+      now rewrite A, B, A', B' in Hg3.
+  - destruct (recheck T f q) as [[[T2 f2] rem2] gr2] eqn:E. inversion H; subst.
+    destruct (Nat.eq_dec w i) as [->|Hne]; [right; now left|].
+    destruct Hw as [Hw|Hw]; [congruence|].
+    destruct (IH _ _ _ _ _ _ E w Hw) as [Ha|[Hb|[g [Hg1 [Hg2 Hg3]]]]]; auto.
+    right. right. exists g. split; [now apply before_cons | auto].
+Qed.
+
+(* the pass splits the queue into the granted and the remaining waiters, both in queue order *)
+Lemma recheck_partition q : forall T f T' f' rem gr, recheck T f q = (T', f', rem, gr) -> NoDup q ->
+  rem = filter (fun w => negb (memn w gr)) q /\ gr = filter (fun w => memn w gr) q.
+Proof.
+  induction q as [|i q IH]; intros T f T' f' rem gr H Hnd; cbn [recheck] in H.
+  - inversion H; subst. auto.
+  - inversion Hnd as [|? ? Hi Hq]; subst.
+    destruct (compat T (r_rd (f i)) (r_wr (f i))).
+    + destruct (recheck (take T (r_rd (f i)) (r_wr (f i))) (upd f i (grant (f i))) q)
+        as [[[T2 f2] rem2] gr2] eqn:E. inversion H; subst.
+      destruct (IH _ _ _ _ _ _ E Hq) as [A B].
+      assert (memn i (i :: gr2) = true) as Hii by (apply memn_In; now left).
+      cbn [filter]. rewrite Hii. cbn [negb].
+      assert (forall w, In w q -> memn w (i :: gr2) = memn w gr2) as Hm.
+      { intros w Hw. unfold memn. cbn [existsb]. destruct (Nat.eqb_spec w i) as [->|Hne]; [contradiction|reflexivity]. }
+      split.
+      * rewrite A. apply filter_ext_in. intros w Hw. now rewrite Hm.
+      * f_equal. rewrite B at 1. apply filter_ext_in. intros w Hw. now rewrite Hm.
+    + destruct (recheck T f q) as [[[T2 f2] rem2] gr2] eqn:E. inversion H; subst.
+      destruct (IH _ _ _ _ _ _ E Hq) as [A B]. cbn [filter].
+      assert (memn i gr = false) as Hm.
+      { destruct (memn i gr) eqn:Em; [|reflexivity]. apply memn_In in Em.
+        elim Hi. apply (recheck_gr_sub _ _ _ _ _ _ _ E i Em). }
+      rewrite Hm. cbn [negb]. split; [now f_equal | exact B].
+Qed.
+
+Definition fifo_spec (s : state) (i : nat) (s' : state) : Prop :=
+  queue s' = filter (fun w => negb (memn w (grants s'))) (queue s) /\
+  grants s' = filter (fun w => memn w (grants s')) (queue s) /\
+  forall w, In w (queue s) ->
+    In w (grants s') \/
+    (exists h, h <> i /\ r_held (rq s h) = true /\ conflicts (rq s h) (rq s w)) \/
+    (exists g, before (queue s) g w /\ In g (grants s') /\ conflicts (rq s g) (rq s w)).
+
+Lemma do_unlock_fifo s i fin :
+  Inv s -> r_held (rq s i) = true -> owns fin = false -> inq fin = false ->
+  (abortish fin = true -> r_ctx (rq s i) = true) -> fifo_spec s i (do_unlock s i fin).
+Proof.
+  intros I Hh Ho Hq Hc. unfold do_unlock, fifo_spec.
+  destruct (core_unlock _ _ _ _ i fin (i_core _ I) Hh Ho Hq Hc) as [T1 [E C1]]. rewrite E.
+  set (f1 := upd (rq s) i (set_st (rq s i) fin false)) in *.
+  destruct (recheck T1 f1 (queue s)) as [[[T2 f2] rem] gr] eqn:Er. cbn [queue grants].
+  pose proof (c_nodup _ _ _ _ (i_core _ I)) as Hnd.
+  destruct (recheck_partition _ _ _ _ _ _ _ Er Hnd) as [A B].
+  split; [exact A|]. split; [exact B|].
+  assert (forall j, r_rd (f1 j) = r_rd (rq s j) /\ r_wr (f1 j) = r_wr (rq s j)) as Hs.
+  { intros j. unfold f1, upd. destruct (Nat.eqb_spec j i) as [->|Hne]; auto. }
+  intros w Hw. destruct (recheck_fifo _ _ _ _ _ _ _ Er w Hw) as [Ha|[Hb|[g [Hg1 [Hg2 Hg3]]]]].
+  - now left.
+  - right. left. destruct (incompat_conflict _ _ _ _ _ _ C1 Hb) as [h [Hh1 Hh2]].
+    assert (h <> i) as Hne. { intros ->. unfold f1 in Hh1. rewrite upd_same in Hh1. discriminate. }
+    exists h. split; [exact Hne|]. unfold f1 in Hh1. rewrite upd_other in Hh1 by exact Hne.
+    split; [exact Hh1|]. unfold conflicts. apply conflicts_s_sym.
+    destruct (Hs h) as [A1 A2]. destruct (Hs w) as [B1 B2]. now rewrite <- A1, <- A2, <- B1, <- B2.
+  - right. right. exists g. split; [exact Hg1|]. split; [exact Hg2|].
+    unfold conflicts in *. destruct (Hs g) as [A1 A2]. destruct (Hs w) as [B1 B2].
+    now rewrite <- A1, <- A2, <- B1, <- B2.
+Qed.
+
+(* ---- the lemmas behind the property theorems ----------------------------------------------------------- *)
+Lemma lock_exclusion acts s : run true init acts = Some s ->
+  forall i j, i <> j -> r_held (rq s i) = true -> r_held (rq s j) = true -> ~ conflicts (rq s i) (rq s j).
+Proof. intros H. apply (c_excl _ _ _ _ (i_core _ (inv_reachable _ _ H))). Qed.
+
+Lemma lock_table_exact acts s : run true init acts = Some s ->
+  (forall i, r_held (rq s i) = owns (r_st (rq s i))) /\
+  (forall i, r_held (rq s i) = true -> i < next s) /\
+  (forall a, t_rd (tbl s) a = sum_rd a (rq s) (next s)) /\
+  (forall a, t_wr (tbl s) a = true <-> exists i, r_held (rq s i) = true /\ In a (r_wr (rq s i))).
+Proof.
+  intros H. pose proof (i_core _ (inv_reachable _ _ H)) as C. split; [|split; [|split]].
+  - apply (c_held _ _ _ _ C).
+  - intros i Hi. apply (core_held_lt _ _ _ _ _ C Hi).
+  - apply (c_rd _ _ _ _ C).
+  - apply (c_wr _ _ _ _ C).
+Qed.
+
+Lemma sum_zero a f n : (forall i, r_held (f i) = false) -> sum_rd a f n = 0.
+Proof. intros H. induction n as [|n IH]; cbn [sum_rd]; [reflexivity|]. unfold hrd. now rewrite H, IH. Qed.
+
+Lemma lock_no_leak acts s : run true init acts = Some s ->
+  (forall i, r_held (rq s i) = false) -> forall a, t_rd (tbl s) a = 0 /\ t_wr (tbl s) a = false.
+Proof.
+  intros H Hn a. destruct (lock_table_exact _ _ H) as [_ [_ [Hr Hw]]]. split.
+  - rewrite Hr. now apply sum_zero.
+  - destruct (t_wr (tbl s) a) eqn:E; [|reflexivity]. apply Hw in E. destruct E as [i [Hi _]].
+    rewrite Hn in Hi. discriminate.
+Qed.
+
+Lemma lock_progress acts s : run true init acts = Some s ->
+  (forall i, In i (queue s) <-> (r_st (rq s i) = Waiting \/ r_st (rq s i) = Aborting)) /\
+  (forall i, In i (queue s) -> compat (tbl s) (r_rd (rq s i)) (r_wr (rq s i)) = false) /\
+  (forall i, In i (queue s) -> exists j, r_held (rq s j) = true /\ conflicts (rq s j) (rq s i)).
+Proof.
+  intros H. pose proof (inv_reachable _ _ H) as I. pose proof (i_core _ I) as C. split; [|split].
+  - intros i. rewrite (c_queue _ _ _ _ C). destruct (r_st (rq s i)); cbn; split; intros Hx;
+      try discriminate; auto; destruct Hx; discriminate.
+  - apply (i_prog _ I).
+  - intros i Hi. destruct (incompat_conflict _ _ _ _ _ _ C (i_prog _ I i Hi)) as [j [Hj Hc]].
+    exists j. split; [exact Hj|]. apply conflicts_s_sym. exact Hc.
+Qed.
+
+Lemma lock_cancel acts s : run true init acts = Some s ->
+  forall i, r_st (rq s i) = Failed ->
+    r_held (rq s i) = false /\ ~ In i (queue s) /\ r_ctx (rq s i) = true.
+Proof.
+  intros H i Hf. pose proof (i_core _ (inv_reachable _ _ H)) as C. split; [|split].
+  - rewrite (c_held _ _ _ _ C), Hf. reflexivity.
+  - rewrite (c_queue _ _ _ _ C), Hf. discriminate.
+  - apply (c_ctx _ _ _ _ C). now rewrite Hf.
+Qed.
+
+Lemma lock_no_panic acts s : run true init acts = Some s -> panicked s = false.
+Proof. intros H. apply (i_nopanic _ (inv_reachable _ _ H)). Qed.
+
+Lemma lock_fifo acts s i a s' : run true init acts = Some s ->
+  (a = ARelease i \/ (a = AAbort i /\ r_st (rq s i) = AbortGranted)) ->
+  step true s a = Some s' -> fifo_spec s i s'.
+Proof.
+  intros H Ha Hs. pose proof (inv_reachable _ _ H) as I. pose proof (i_core _ I) as C.
+  unfold step in Hs. rewrite (i_nopanic _ I) in Hs. destruct Ha as [->|[-> Es]].
+  - destruct (r_st (rq s i)) eqn:Es; try discriminate. inversion Hs; subst.
+    apply do_unlock_fifo; auto.
+    + rewrite (c_held _ _ _ _ C), Es. reflexivity.
+    + cbn. discriminate.
+  - rewrite Es in Hs. inversion Hs; subst. apply do_unlock_fifo; auto.
+    + rewrite (c_held _ _ _ _ C), Es. reflexivity.
+    + intros _. apply (c_ctx _ _ _ _ C). now rewrite Es.
+Qed.
+
+(* before the repair: once a request has failed while holding, it holds for ever *)
+Lemma recheck_other q : forall T f T' f' rem gr, recheck T f q = (T', f', rem, gr) ->
+  forall j, inq (r_st (f j)) = false -> f' j = f j.
+Proof.
+  induction q as [|i q IH]; intros T f T' f' rem gr H j Hj; cbn [recheck] in H.
+  - inversion H; subst. reflexivity.
+  - destruct (compat T (r_rd (f i)) (r_wr (f i))).
+    + destruct (recheck (take T (r_rd (f i)) (r_wr (f i))) (upd f i (grant (f i))) q)
+        as [[[T2 f2] rem2] gr2] eqn:E. inversion H; subst.
+      assert (upd f i (grant (f i)) j = f j) as Hu.
+      { unfold upd. destruct (Nat.eqb_spec j i) as [->|Hne]; [|reflexivity].
+        unfold grant. destruct (r_st (f i)); try reflexivity; discriminate. }
+      rewrite <- Hu. apply (IH _ _ _ _ _ _ E). now rewrite Hu.
+    + destruct (recheck T f q) as [[[T2 f2] rem2] gr2] eqn:E. inversion H; subst. apply (IH _ _ _ _ _ _ E j Hj).
+Qed.
+
+Lemma do_unlock_next s j fin : next (do_unlock s j fin) = next s.
+Proof.
+  unfold do_unlock. destruct (untake (tbl s) (r_rd (rq s j)) (r_wr (rq s j))); [|reflexivity].
+  destruct (recheck t (upd (rq s) j (set_st (rq s j) fin false)) (queue s)) as [[[T2 f2] rem] gr]. reflexivity.
+Qed.
+
+Definition leaked (s : state) (i : nat) : Prop :=
+  i < next s /\ r_st (rq s i) = Failed /\ r_held (rq s i) = true.
+
+Lemma leak_step fx s a s' i : step fx s a = Some s' -> leaked s i -> leaked s' i.
+Proof.
+  intros H [Hi [Hf Hh]]. unfold leaked.
+  assert (forall j fin, r_st (rq s j) <> Failed -> leaked (do_unlock s j fin) i) as Hun.
+  { intros j fin Hj. unfold leaked. rewrite do_unlock_next. split; [exact Hi|].
+    unfold do_unlock. destruct (untake (tbl s) (r_rd (rq s j)) (r_wr (rq s j))); [|cbn; auto].
+    destruct (recheck t (upd (rq s) j (set_st (rq s j) fin false)) (queue s)) as [[[T2 f2] rem] gr] eqn:Er.
+    cbn [rq]. assert (i <> j) as Hne by congruence.
+    rewrite (recheck_other _ _ _ _ _ _ _ Er i); rewrite upd_other by exact Hne; [auto | now rewrite Hf]. }
+  assert (forall j r', r_st (rq s j) <> Failed -> leaked (with_rq s (upd (rq s) j r')) i) as Hup.
+  { intros j r' Hj. unfold leaked. cbn. assert (i <> j) as Hne by congruence.
+    rewrite upd_other by exact Hne. auto. }
+  unfold step in H. destruct (panicked s); [discriminate|].
+  destruct a as [R W c|j|j|j b|j].
+  - assert (i <> next s) as Hne by lia.
+    destruct (compat (tbl s) R W); inversion H; subst; cbn [rq next]; rewrite upd_other by exact Hne;
+      (split; [lia | auto]).
+  - destruct (r_st (rq s j)) eqn:Es; try discriminate. inversion H; subst. apply Hun. congruence.
+  - destruct (Nat.eq_dec j i) as [->|Hne].
+    + rewrite Hf in H. inversion H; subst. cbn. rewrite upd_same. cbn. auto.
+    + assert (s' = with_rq s (upd (rq s) j (set_ctx (rq s j)))) as -> by (destruct (r_st (rq s j)); congruence).
+      cbn. rewrite upd_other by congruence. auto.
+  - destruct b.
+    + destruct (r_ctx (rq s j)); [|discriminate].
+      destruct (r_st (rq s j)) eqn:Es; try discriminate; inversion H; subst; apply Hup; congruence.
+    + destruct (r_st (rq s j)) eqn:Es; try discriminate; inversion H; subst; apply Hup; congruence.
+  - destruct (r_st (rq s j)) eqn:Es; try discriminate.
+    + inversion H; subst. cbn. assert (i <> j) as Hne by congruence. rewrite upd_other by exact Hne. auto.
+    + destruct fx; inversion H; subst; [apply Hun | apply Hup]; congruence.
+Qed.
+
+Lemma leak_forever fx acts : forall s s' i, run fx s acts = Some s' -> leaked s i -> leaked s' i.
+Proof.
+  induction acts as [|a acts IH]; intros s s' i H L; cbn [run] in H.
+  - inversion H; subst. exact L.
+  - destruct (step fx s a) as [s1|] eqn:E; [|discriminate]. apply (IH s1 s' i H). apply (leak_step _ _ _ _ _ E L).
+Qed.
